@@ -876,7 +876,52 @@ func (n *normalizer) inlinableBody(c *callee) bool {
 	if total > 1 {
 		return false
 	}
-	c.nestedDefer = total == 1 && nDefer == 0
+	// a top-level defer whose call mentions only parameters / the receiver / package-level names is simply moved behind
+	// the body (mu.Unlock() stays a visible call); otherwise (nested, or operands that are locals of the body) it is kept
+	// as a closure in a fresh variable
+	c.nestedDefer = false
+	if total == 1 {
+		if nDefer == 0 {
+			c.nestedDefer = true
+		} else {
+			params := map[types.Object]bool{}
+			addFL := func(fl *ast.FieldList) {
+				if fl == nil {
+					return
+				}
+				for _, f := range fl.List {
+					for _, id := range f.Names {
+						if o := n.info.Defs[id]; o != nil {
+							params[o] = true
+						}
+					}
+				}
+			}
+			addFL(c.typ.Params)
+			addFL(c.typ.Results)
+			if c.recv != nil {
+				for _, id := range c.recv.Names {
+					if o := n.info.Defs[id]; o != nil {
+						params[o] = true
+					}
+				}
+			}
+			for _, st := range c.body.List {
+				if d, isDefer := st.(*ast.DeferStmt); isDefer {
+					ast.Inspect(d.Call, func(x ast.Node) bool {
+						if id, ok := x.(*ast.Ident); ok {
+							if o := n.info.Uses[id]; o != nil {
+								if v, isVar := o.(*types.Var); isVar && !v.IsField() && v.Parent() != nil && v.Parent() != n.pkg.Types.Scope() && !params[o] {
+									c.nestedDefer = true // a local of the body
+								}
+							}
+						}
+						return true
+					})
+				}
+			}
+		}
+	}
 	if !ok {
 		return false
 	}
@@ -1073,7 +1118,7 @@ func (n *normalizer) expand(c *callee, st ast.Stmt, kind string) ([]ast.Stmt, bo
 	var deferred *ast.DeferStmt
 	var stmts []ast.Stmt
 	for _, s := range body.List {
-		if d, ok := s.(*ast.DeferStmt); ok {
+		if d, ok := s.(*ast.DeferStmt); ok && !c.nestedDefer {
 			deferred = d
 			continue
 		}
